@@ -3,7 +3,7 @@ From BV Require Import Base.Prelude Model.Block Model.ForkDB Model.Forkable Spec
   Spec.C01_Moving_Spec Spec.C02_Spec Proofs.C02_Proofs Properties.C01_Moving.
 Local Open Scope N_scope.
 
-(* partial: exclusive starting LIB coherent with the history, any handler oracle
+(* partial: configured starting LIB (exclusive or inclusive) coherent with the history, any handler oracle
    (c02_full in Spec/C02_Spec.v is the full statement; the gap is named in driver/thm_C02.json) *)
 Theorem c02_moving_lib_partial : c02_moving_lib_statement.
 Proof. exact c02_moving_lib_proved. Qed.
@@ -18,5 +18,7 @@ Example c02_nonvacuous :
   length (filter (fun e => step_eqb (estep e) SIrr) (all_events (fk_run (mv_cfg 0 false) (fs_init (LExcl mv_r0)) mv_hist))) = 6%nat /\
   length (filter (fun e => step_eqb (estep e) SStalled) (all_events (fk_run (mv_cfg 0 false) (fs_init (LExcl mv_r0)) mv_hist))) = 5%nat /\
   length (filter (fun e => step_eqb (estep e) SIrr) (all_events (fk_run (mv_cfg 3 true) (fs_init (LExcl mv_r0)) mv_hist))) = 6%nat /\
-  length (filter (fun e => step_eqb (estep e) SIrr) (all_events (fk_run mv_cfg_fail (fs_init (LExcl mv_r0)) mv_hist))) = 2%nat.
+  length (filter (fun e => step_eqb (estep e) SIrr) (all_events (fk_run mv_cfg_fail (fs_init (LExcl mv_r0)) mv_hist))) = 2%nat /\
+  moving_scope_b mv_r0 mv_hist_incl = true /\
+  length (filter (fun e => step_eqb (estep e) SIrr) (all_events (fk_run mv_cfg_incl (fs_init (LIncl mv_r0)) mv_hist_incl))) = 7%nat.
 Proof. vm_compute. repeat split; reflexivity. Qed.
